@@ -607,8 +607,8 @@ def part_getitem(b, tier):
             exp_s = [b.seqs[r] for r in rpos]
             extra = (lambda cl=cl, cidx=cidx, rl=rl, ridx=ridx: {"cols": [cl, repr(cidx)], "rows": [rl, repr(ridx)]})
             paired = cl in ARRAYISH and rl in ARRAYISH
-            if paired and (cl not in ("mask", "intarr") or rl not in ("list", "mask")):
-                # the unspecified class is exercised with masks / int arrays x row lists / row masks only
+            if paired and n > 2 and (cl not in ("mask", "intarr") or rl not in ("list", "mask")):
+                # three rows: the class is exercised with masks / int arrays x row lists / row masks only
                 continue
             try:
                 res = ("ok", b.aln[index])
@@ -617,6 +617,7 @@ def part_getitem(b, tier):
             if paired:
                 # numpy pairs two index arrays instead of selecting orthogonally: unspecified
                 ctx.count("unspecified")
+                ctx.count("colarray_x_rowarray_" + ("returned" if res[0] == "ok" else "raised"))
                 b.evs += 1
                 if res[0] == "ok":
                     t = obs_trace(getattr(res[1], "trace", None), len(rpos))
@@ -643,6 +644,16 @@ def part_getitem(b, tier):
     forms.append(("three_indices", 0, (slice(None), slice(None), slice(None))))
     for label, _, index in forms:
         b.evs += 1
+        if label == "single_integer":
+            # alignment[i]: the statement does not say that a bare integer is refused (the class refuses
+            # integers only inside a 2-d index): unspecified - exception or any result, the source stays intact
+            ctx.count("unspecified")
+            ctx.count("bare_integer_index")
+            try:
+                b.aln[index]
+            except Exception:  # noqa: BLE001
+                pass
+            continue
         ctx.count("refused")
         try:
             r = b.aln[index]
